@@ -126,7 +126,8 @@ def run(ctx):
             ctx.ob("C10.2", "%s|%s|%d" % (g.id, nm, k), "a failure of %s makes read() return Err without parsing further or building a Request" % nm,
                    ok and sets_err, g.loc(bb), None if ok and sets_err else "err-edge reaches continuation/Ok construction or does not return Err")
     # no defaulting combinator anywhere in the head parsers
-    heads = [g, prl, phv, rnl] + facts.find_fns(r"^client::parse_request_line::\{closure") + facts.find_fns(r"^client::ClientConnection::read(_next_line)?::\{closure")
+    heads = [g, prl, phv, rnl] + facts.find_fns(r"^client::parse_request_line::\{closure") + facts.find_fns(r"^client::ClientConnection::read(_next_line)?::\{closure") \
+        + facts.find_fns(r"^<common::Header as std::str::FromStr>::from_str") + facts.find_fns(r"^<common::HeaderField as std::str::FromStr>::from_str")
     ndef = 0
     for h in heads:
         ctx.touch(h)
